@@ -265,8 +265,7 @@ func init() {
 			"parameter literal (28 kinds incl. non-finite, huge and tiny floats of both signs) x position (5) x stub; pattern shape (17) x position (5); every accepted output: gofmt-stable, go/types clean against the pinned runtime + universe, init() predicate true; covering subset (all single departures; thorough all pairs) compiled, linked and started with and without -tags gontainerstub. non-trivial = accepted and analysed; distinct = distinct configuration",
 		Assumptions: []string{"go/types with gc export data stands for the compiler on the statically checked outputs; the really compiled subset cross-checks it", "rejected combinations are outside the statement (it starts from exit 0) and only counted"},
 		BudgetQuick: 240 * time.Second, BudgetThorough: 1500 * time.Second,
-		Prepare:     PrepareUniverse,
-		CaseTimeout: 900 * time.Second,
+		Prepare: PrepareUniverse,
 		Run: func(w *W) {
 			k := 3
 			if !w.Env.Quick() {
